@@ -7,6 +7,7 @@ package adapt
 import (
 	"fmt"
 	"sort"
+	"strings"
 
 	"pgregory.net/rapid"
 
@@ -44,10 +45,16 @@ type Upd struct {
 	Fields []string `json:"fields,omitempty"` // scalar fields, "huge/<size>", "unified/<key>"
 	Ignore bool     `json:"ignore,omitempty"`
 	NoRes  bool     `json:"nores,omitempty"` // update without a resources section
-	ValOf  string   `json:"val_of,omitempty"` // as Op.ValOf, for all fields of this update
+	// SelfDup (ignore-failure updates only): the first "huge/<size>" field is listed twice in
+	// the update. The second entry collides with the first, which is the only way the FIRST
+	// update of a container can conflict; the update must then be dropped in its entirety.
+	SelfDup bool   `json:"self_dup,omitempty"`
+	ValOf   string `json:"val_of,omitempty"` // as Op.ValOf, for all fields of this update
 }
 
 type Script struct {
+	// DelayMs makes the plugin's handler answer late (well within every timeout)
+	DelayMs int   `json:"delay_ms,omitempty"`
 	Plugin  int   `json:"plugin"` // pool index 0..4 (chain order = fixture's index order)
 	Ops     []Op  `json:"ops,omitempty"`
 	Updates []Upd `json:"updates,omitempty"`
@@ -106,8 +113,8 @@ func followUp(c Case) Case {
 }
 
 var (
-	annKeys     = []string{"a1", "a2", "a3"}
-	envKeys     = []string{"E1", "E2", "E3"}
+	annKeys = []string{"a1", "a2", "a3"}
+	envKeys = []string{"E1", "E2", "E3"}
 	// keys that themselves begin with a dash: legal for items of the original container and
 	// for removals ("--a1" marks "-a1"); they cannot be SET through an adjustment (a set of
 	// "-a1" is the removal of "a1"), so they only occur in the original and in lone removals
@@ -300,7 +307,20 @@ func genUpd(t *rapid.T, kind string, b Bias, used map[string]bool) (Upd, bool) {
 	if !u.NoRes {
 		u.ValOf = genValOf(t)
 	}
+	if u.Ignore && hugeField(u) != "" && gen.Uniform(t, "selfdup", 4) == 0 {
+		u.SelfDup = true
+	}
 	return u, true
+}
+
+// hugeField returns the first hugepage field of an update ("" if none).
+func hugeField(u Upd) string {
+	for _, f := range u.Fields {
+		if strings.HasPrefix(f, "huge/") {
+			return f
+		}
+	}
+	return ""
 }
 
 // GenCase draws a case with the given bias.
@@ -379,10 +399,151 @@ func GenCase(t *rapid.T, b Bias) Case {
 	if len(c.Chain) >= 2 && rapid.IntRange(0, 99).Draw(t, "nearmiss") < b.NearMiss {
 		forceNearMiss(t, &c)
 	}
+	if c.Kind == "create" && gen.Uniform(t, "bulk", 8) == 0 {
+		forceBulk(t, &c)
+	}
+	if c.Kind == "update" && b.IgnoreFlags > 0 && gen.Uniform(t, "selfdupstory", 8) == 0 {
+		forceSelfDupStory(t, &c)
+	}
+	if c.Kind == "stop" && b.Collide > 0 && gen.Uniform(t, "stopstory", 3) == 0 {
+		forceStopStory(t, &c)
+	}
+	if gen.Uniform(t, "delays", 8) == 0 {
+		for i := range c.Chain {
+			if gen.Uniform(t, "delay", 3) == 0 {
+				c.Chain[i].DelayMs = gen.Pick(t, "delayms", []int{1, 5, 20})
+			}
+		}
+	}
+	// a plugin that is not subscribed to StopContainer takes no part in stop requests
+	if c.Kind == "stop" {
+		kept := c.Chain[:0]
+		for _, s := range c.Chain {
+			if !fixtureSpecs[c.Fixture].noStop[s.Plugin] {
+				kept = append(kept, s)
+			}
+		}
+		c.Chain = kept
+	}
 	if b.MaxPar > 1 {
 		c.Par = rapid.IntRange(1, b.MaxPar).Draw(t, "par")
 	}
 	return c
+}
+
+// bulkKey names the k-th key of a bulk set (more keys of one kind than any small fixed-size
+// table would hold).
+func bulkKey(fam string, k int) string {
+	switch fam {
+	case "ann":
+		return fmt.Sprintf("b%d", k)
+	case "env":
+		return fmt.Sprintf("B%d", k)
+	case "mount":
+		return fmt.Sprintf("/b%d", k)
+	case "dev":
+		return fmt.Sprintf("/dev/b%d", k)
+	case "cdi":
+		return fmt.Sprintf("v.com/c=b%d", k)
+	}
+	return fmt.Sprintf("u.b%d", k)
+}
+
+// forceBulk makes one plugin set 9..16 distinct keys of one family and lets later plugins
+// release (and possibly set again) some of them.
+func forceBulk(t *rapid.T, c *Case) {
+	fam := gen.Pick(t, "bfam", []string{"ann", "env", "mount", "dev", "cdi", "unified"})
+	n := 9 + gen.Uniform(t, "bn", 8)
+	i := gen.Uniform(t, "bi", len(c.Chain))
+	for k := 0; k < n; k++ {
+		c.Chain[i].Ops = append(c.Chain[i].Ops, Op{Fam: fam, Key: bulkKey(fam, k), Act: "set"})
+	}
+	if !has(removableFams, fam) {
+		return
+	}
+	owned := map[int]bool{}
+	for k := 0; k < n; k++ {
+		owned[k] = true
+	}
+	for j := i + 1; j < len(c.Chain); j++ {
+		for r := gen.Uniform(t, "brel", 4); r > 0; r-- {
+			k := gen.Uniform(t, "bk", n)
+			key := bulkKey(fam, k)
+			if hasOp(&c.Chain[j], fam, key) >= 0 {
+				continue
+			}
+			switch gen.Uniform(t, "bact", 3) {
+			case 0:
+				c.Chain[j].Ops = append(c.Chain[j].Ops, Op{Fam: fam, Key: key, Act: "del"})
+				owned[k] = false
+			case 1:
+				c.Chain[j].Ops = append(c.Chain[j].Ops, Op{Fam: fam, Key: key, Act: "reset", Rev: fam != "ann" && gen.Uniform(t, "brev", 2) == 0})
+				owned[k] = true
+			default:
+				if !owned[k] {
+					c.Chain[j].Ops = append(c.Chain[j].Ops, Op{Fam: fam, Key: key, Act: "set"})
+					owned[k] = true
+				}
+			}
+		}
+	}
+}
+
+// forceSelfDupStory (update requests): the first update any plugin makes to the container
+// being updated is an ignore-failure update that collides with itself (one hugepage size
+// listed twice) and must be dropped; a later plugin then updates that container.
+func forceSelfDupStory(t *rapid.T, c *Case) {
+	if len(c.Chain) < 2 {
+		return
+	}
+	for i := range c.Chain {
+		kept := c.Chain[i].Updates[:0]
+		for _, u := range c.Chain[i].Updates {
+			if u.Target != "SELF" {
+				kept = append(kept, u)
+			}
+		}
+		c.Chain[i].Updates = kept
+	}
+	i := gen.Uniform(t, "sdi", len(c.Chain)-1)
+	j := i + 1 + gen.Uniform(t, "sdj", len(c.Chain)-1-i)
+	hf := "huge/" + gen.Pick(t, "sdsize", hugeKeys)
+	first := Upd{Target: "SELF", Fields: []string{hf}, Ignore: true, SelfDup: true}
+	if gen.Uniform(t, "sdmore", 2) == 0 {
+		first.Fields = append([]string{gen.Pick(t, "sdf", scalarFams)}, first.Fields...)
+	}
+	c.Chain[i].Updates = append(c.Chain[i].Updates, first)
+	later := gen.Pick(t, "sdlater", scalarFams)
+	if has(first.Fields, later) {
+		return // would be a partial-claim hazard case; keep the story clean
+	}
+	c.Chain[j].Updates = append(c.Chain[j].Updates, Upd{Target: "SELF", Fields: []string{later}})
+}
+
+// forceStopStory (stop requests, fixture 2): two plugins on either side of the pool plugin
+// that is not subscribed to StopContainer collide on a field of one container; the earlier
+// one marks its updates ignore-failure and answers late. In index order the later plugin's
+// update conflicts and fails the request.
+func forceStopStory(t *rapid.T, c *Case) {
+	c.Fixture = 2
+	lo, hi := -1, -1
+	for i, s := range c.Chain {
+		if s.Plugin < 2 && lo < 0 {
+			lo = i
+		}
+		if s.Plugin > 2 {
+			hi = i
+		}
+	}
+	if lo < 0 || hi < 0 {
+		return
+	}
+	forceCollision(t, c, lo, hi)
+	for k := range c.Chain[lo].Updates {
+		c.Chain[lo].Updates[k].Ignore = true
+		c.Chain[lo].Updates[k].SelfDup = false
+	}
+	c.Chain[lo].DelayMs = gen.Pick(t, "ssdelay", []int{10, 30})
 }
 
 // forceAppend makes several plugins contribute to one appended list: hooks of one kind (any
